@@ -93,7 +93,7 @@ package fasta
 //@   modifies p.buf.n, p.buf.tok, p.buf.lit, gfield(rem), gfield(unread), gfield(blen), field(align.seqbag.seqs), field(align.align.length), mem(*align.seq), maps(map[string]*align.seq), field(align.seqbag.alphabet)
 //@   loop 1
 //@     invariant pok(p) && err == nil && sb != nil && wf(sb) && (isalign(sb) ==> wfa(sb)) && isalign(sb) == old(isalign(sb))
-//@     invariant nrows(sb) == 0 ==> true
+//@     invariant tok == EOF ==> nrows(sb) >= 1
 //@     decreases (tok == EOF ? 0 : pM(p) + 1)
 
 //@ func (*Parser).Parse
